@@ -8,5 +8,7 @@ def get(pid):
         "C04": checks_net.C04net,
         "C12": checks_net.C12,
         "C13": checks_p.C13,
+        "C14": checks_p.C14,
+        "C18": checks_p.C18,
     }
     return table[pid]()
